@@ -303,8 +303,8 @@ func classify(err error) string {
 // construction cases are skipped (the verdict is already a violation, and each costs 4 s).
 var slowConstructions int
 
-func runCase(mode string, shape []field, prefix string, fm map[string]string) line {
-	ln := line{Ev: "case", Mode: mode, Shape: shape, Prefix: prefix, Names: []string{}, Requests: []string{}, Outcome: []string{}, Err: "f", Alias: "f", Live: "t", Pre: tf(prefill)}
+func runCase(mode string, shape []field, prefix string, fm map[string]string) (ln line) {
+	ln = line{Ev: "case", Mode: mode, Shape: shape, Prefix: prefix, Names: []string{}, Requests: []string{}, Outcome: []string{}, Err: "f", Alias: "f", Live: "t", Pre: tf(prefill)}
 	s := &svc{form: map[string]string{"base": "num"}, ver: map[string]int{"base": 1}}
 	var fnames []string
 	for n := range fm {
